@@ -234,7 +234,10 @@ def build_disordered(rng, kind, mode, directed=None):
         sync = ["  0 = TS 4"] + lines + sync[1:]
     elif kind in ("text", "section", "lyric"):
         pre = {"text": "", "section": "section ", "lyric": "lyric "}[kind]
-        lines = [f"  {t} = E \"{pre}v{i}\"" for i, t in enumerate(ticks)]
+        # event texts as charts carry them, among them ones that look like format fields to code that builds its error message
+        # from the offending line ("{ah}", "%s", "\\1")
+        vals = ["v{i}", "{ah}", "a{0}b", "100%", "%s x", "{}", "say {x!r}", "\\1", "{i}%d", "o-{oh}"]
+        lines = [f"  {t} = E \"{pre}{vals[(i + len(ticks)) % len(vals)].replace('{i}', str(i)) if i % 3 == 1 else 'v' + str(i)}\"" for i, t in enumerate(ticks)]
         events = lines if directed else disorder(rng, lines, mode)
     elif kind == "S":
         lines = [f"  {t} = S 2 {rng.choice([0, 1, res])}" for t in ticks]
@@ -242,10 +245,24 @@ def build_disordered(rng, kind, mode, directed=None):
     elif kind == "E":
         lines = [f"  {t} = E {['solo', 'soloend', 'e' + str(i)][i % 3]}" for i, t in enumerate(ticks)]
         body = lines if directed else disorder(rng, lines, mode)
-    else:
+    elif directed or rng.random() < 0.5:
         lines = [f"  {t} = N {i % 5} {rng.choice([0, 0, res, 3 * res])}" for i, t in enumerate(ticks)]
         body = lines if directed else disorder(rng, lines, mode)
-    text = gen.render_sections([("Song", [f"  Resolution = {res}"]), ("SyncTrack", sync), ("Events", events), ("ExpertSingle", body)])
+    else:
+        # notes with forced / tap flag lines (never on the note that is first in tick order); the lines of one tick stay together,
+        # the notes come in the disordered order - a flagged note may thereby come to stand first in the section
+        units = []
+        for i, t in enumerate(ticks):
+            u = [f"  {t} = N {i % 5} {rng.choice([0, 0, res, 3 * res])}"]
+            if i > 0 and rng.random() < 0.4:
+                u.append(f"  {t} = N {rng.choice([5, 5, 6])} 0")
+            units.append(u)
+        body = [ln for u in disorder(rng, units, mode) for ln in u]
+    secs = [("Song", [f"  Resolution = {res}"]), ("SyncTrack", sync), ("Events", events), ("ExpertSingle", body)]
+    if body and not directed and rng.random() < 0.4:
+        # the same disordered lines in further instrument sections: more than one section of a file may be out of order
+        secs += [(h, list(body)) for h in rng.sample(["HardDoubleBass", "EasyDrums", "MediumGHLGuitar", "ExpertKeyboard"], rng.choice([1, 2]))]
+    text = gen.render_sections(secs)
     return text
 
 
